@@ -199,15 +199,29 @@ fn parse_inputs(r: &mut Rng, n: usize, signed: bool, radix: u32, count: usize) -
         }
         v.push(s);
     }
+    // numerals that overflow well before their end, with an invalid character at several distances after the
+    // overflow point (which error is reported may depend on how far the parser reads ahead)
+    {
+        let top = digit_char((radix.min(36) - 1) as u8, false);
+        let long: Vec<u8> = std::iter::repeat(top).take(cap_digits + 8).collect();
+        v.push(long.clone());
+        for (pos, sign) in [(cap_digits + 1, ""), (cap_digits + 4, "-"), (cap_digits + 8, "+"), (cap_digits + 8, "")] {
+            let mut s2: Vec<u8> = sign.as_bytes().to_vec();
+            s2.extend(&long[..pos]);
+            s2.push(*r.pick(&[b'x', b' ', b'_', b'~']));
+            s2.extend(&long[pos..]);
+            v.push(s2);
+        }
+    }
     // a sign after leading zeros, in the middle, at the end
     v.extend([b"0+1".to_vec(), b"00-1".to_vec(), b"0+0".to_vec(), b"1+1".to_vec(), b"1-".to_vec(), b"0-".to_vec(), b"000000000+1".to_vec(), b"0000000000000000000000000000000000000000-1".to_vec()]);
     v.extend([b"".to_vec(), b"+".to_vec(), b"-".to_vec(), b"+-1".to_vec(), b"--1".to_vec(), b"-+1".to_vec(), b" 1".to_vec(), b"1 ".to_vec(), b"0x10".to_vec(), b"-0".to_vec(), b"+0".to_vec(), b"00".to_vec(), b"-".to_vec()]);
     // shuffle-ish subsample
     let mut outv = Vec::new();
-    let keep = count + 21;
+    let keep = count + 26;
     let total = v.len();
     for (i, s) in v.into_iter().enumerate() {
-        if total <= keep || i + 21 >= total || r.below(total as u64) < keep as u64 {
+        if total <= keep || i + 26 >= total || r.below(total as u64) < keep as u64 {
             outv.push(s);
         }
     }
@@ -243,6 +257,19 @@ fn radix_digit_inputs(r: &mut Rng, n: usize, radix: u32, count: usize) -> Vec<Ve
     }
     v.push(vec![]);
     v.truncate(count.max(20));
+    // over-long digit strings that are NOT just zero padding: a single non-zero digit placed 1 .. 2*8+2 places above
+    // the capacity, zeros between it and a representable value part (excess checks that look at the first excess
+    // digit only, or only at whole machine digits, accept these)
+    let val_part = to_digits(&gen::fit(&gen::short(r, n), n + 1), radix);
+    for above in [1usize, 2, 3, 4, 5, 8, 9, 16, 17] {
+        if above > 5 && r.below(2) == 0 {
+            continue;
+        }
+        let mut s2: Vec<u8> = vec![1 + r.below(radix.min(256) as u64 - 1) as u8];
+        s2.extend(std::iter::repeat(0).take(cap_digits + above - 1 - val_part.len().min(cap_digits)));
+        s2.extend(val_part.iter().take(cap_digits));
+        v.push(s2);
+    }
     v
 }
 
